@@ -111,7 +111,8 @@ def _probes(rng, n_items):
 
 
 def plan(rng, tier):
-    cfg = common.draw_cfg(rng, p_stored=0.3, p_default_sizes=0.06)
+    cfg = common.draw_cfg(rng, p_stored=0.3, p_default_sizes=0.06,
+                          p_sub=0.06)
     cfg["dom"]["nk"] = rng.choice([8, 12, 16, 24, 32, 48])
     pre = 0
     if cfg["leaf"] is None and is_tree(cfg["kind"]):
